@@ -47,7 +47,7 @@ M = [
  ("m18-removal", "C18", "v3/util/gtld.go", "if when.After(notAfter) {", "if !when.Before(notAfter) {"),
  ("m18-tolower", "C18", "v3/util/gtld.go", "labels := strings.Split(strings.ToLower(domain), \".\")", "labels := strings.Split(domain, \".\")"),
  ("m19-delete-block", "C19", "v3/util/ip.go", "{\"100.64.0.0/10\"}", "{\"100.64.0.0/11\"}"),
- ("m19-typo", "C19", "v3/util/ip.go", "\"169.254.0.0/16\"", "\"169.254.0.0/26\""),
+ ("m19-typo", "C19", "v3/util/ip.go", "\"198.18.0.0/15\"", "\"198.18.0.0/16\""),
  ("m20-edit-one-copy", "C20", "v3/lints/rfc/lint_ext_ian_space_dns_name.go", None, None),
 ]
 
